@@ -1,9 +1,12 @@
 package main
 
 import (
+	"bytes"
+	"context"
 	"encoding/json"
 	"fmt"
 	"os"
+	"os/exec"
 	"path/filepath"
 	"sort"
 	"strings"
@@ -97,6 +100,7 @@ func (p *Pipeline) runBatch(s batchSpec) *merged {
 	res := make([]*BatchResult, s.Workers)
 	var wg sync.WaitGroup
 	errs := make([]string, s.Workers)
+	killed := make([]bool, s.Workers)
 	t0 := time.Now()
 	for w := 0; w < s.Workers; w++ {
 		wg.Add(1)
@@ -113,7 +117,28 @@ func (p *Pipeline) runBatch(s batchSpec) *merged {
 				args = append(args, "-records")
 			}
 			env := append(append([]string{}, os.Environ()...), s.Env...)
-			o, err := p.tryRun(p.Root, env, s.Bin, args...)
+			var o string
+			var err error
+			if s.Budget > 0 {
+				// a worker that is still busy long after its budget (one
+				// pathologically slow simulation) is stopped; the batch goes on
+				// with what the other workers explored
+				ctx, cancel := context.WithTimeout(context.Background(), time.Duration(s.Budget*2+150)*time.Second)
+				cmd := exec.CommandContext(ctx, s.Bin, args...)
+				cmd.Dir, cmd.Env = p.Root, env
+				var buf bytes.Buffer
+				cmd.Stdout, cmd.Stderr = &buf, &buf
+				err = cmd.Run()
+				o = buf.String()
+				timedOut := ctx.Err() != nil
+				cancel()
+				if timedOut {
+					killed[w] = true
+					return
+				}
+			} else {
+				o, err = p.tryRun(p.Root, env, s.Bin, args...)
+			}
 			b, rerr := os.ReadFile(out)
 			if rerr != nil {
 				errs[w] = fmt.Sprintf("worker %d of %s produced no result (%v): %s", w, s.Label, err, tail(o, 3000))
@@ -138,7 +163,23 @@ func (p *Pipeline) runBatch(s batchSpec) *merged {
 		}
 	}
 	m := &merged{Stats: map[string]int64{}, Records: map[int]RunRecord{}}
+	nKilled := 0
+	for w := range killed {
+		if killed[w] {
+			nKilled++
+		}
+	}
+	if nKilled == s.Workers {
+		fail("every worker of %s was still busy long after its budget and had to be stopped", s.Label)
+	}
+	if nKilled > 0 {
+		p.logf("WARNING: %d of %d workers of %s were still busy long after their budget and were stopped (their runs are not counted)", nKilled, s.Workers, s.Label)
+		m.Stats["workers_stopped_long_after_budget"] = int64(nKilled)
+	}
 	for _, r := range res {
+		if r == nil {
+			continue
+		}
 		m.Runs += r.Runs
 		m.GoVersion = r.GoVersion
 		for k, v := range r.Stats {
